@@ -174,8 +174,28 @@ Record name_facts := {
   nf_init_tail : str;                     (* _generate_record_class: the constant appended to init_code after the fields *)
   nf_kw_args : str;                       (* keyword path: args, init_code, unpack_code constants *)
   nf_kw_init : str;
-  nf_kw_unpack : str
+  nf_kw_unpack : str;
+  nf_to_str_surrogateescape : bool        (* utils.to_str (the one base.py and packer.py use): identity on str; on bytes equal
+                                             to decode("utf-8", "surrogateescape") on a battery of invalid / truncated /
+                                             overlong sequences at every position -- no byte is dropped or merged *)
 }.
+
+(* the same facts with both regexes ending in the given anchor (to state what "$" would admit) *)
+Definition with_end (e : end_anchor) (F : name_facts) : name_facts :=
+  {| nf_field_re := {| re_body := re_body (nf_field_re F); re_end := e |};
+     nf_type_re := {| re_body := re_body (nf_type_re F); re_end := e |};
+     nf_reserved := nf_reserved F; nf_whitelist := nf_whitelist F; nf_keywords := nf_keywords F;
+     nf_field_valid := nf_field_valid F; nf_grc_check_reserved := nf_grc_check_reserved F;
+     nf_rf_check_reserved := nf_rf_check_reserved F; nf_gsteps := nf_gsteps F;
+     nf_rf_validates_before_fieldtype := nf_rf_validates_before_fieldtype F;
+     nf_ft_strips_one_list_suffix := nf_ft_strips_one_list_suffix F;
+     nf_ft_whitelist_before_import := nf_ft_whitelist_before_import F;
+     nf_exec_sites := nf_exec_sites F; nf_grc_callers := nf_grc_callers F; nf_routes := nf_routes F;
+     nf_template := nf_template F; nf_plain_default_types := nf_plain_default_types F;
+     nf_init_tail := nf_init_tail F; nf_kw_args := nf_kw_args F; nf_kw_init := nf_kw_init F;
+     nf_kw_unpack := nf_kw_unpack F; nf_to_str_surrogateescape := nf_to_str_surrogateescape F |}.
+
+Definition is_ascii (c : N) : bool := c <? 128.
 
 Section WithFacts.
 Variable F : name_facts.
@@ -331,6 +351,7 @@ Definition guarded : bool :=
   && nf_rf_validates_before_fieldtype F
   && nf_ft_whitelist_before_import F
   && nf_ft_strips_one_list_suffix F
-  && forallb (fun r => snd r) (nf_routes F).
+  && forallb (fun r => snd r) (nf_routes F)
+  && nf_to_str_surrogateescape F.
 
 End WithFacts.
